@@ -1,7 +1,9 @@
 package main
 
 import (
+	"fmt"
 	"go/token"
+	"go/types"
 	"strings"
 
 	"golang.org/x/tools/go/ssa"
@@ -70,4 +72,722 @@ func runPreallocGuard(c *Ctx) {
 	if n == 0 {
 		c.Proved("PREALLOC", "gtfs", "no collection is reset inside a row loop", "-", "no store of a fresh slice into an appended collection")
 	}
+}
+
+// ---------------------------------------------------------------- sort comparators (G16b)
+
+// runComparators: every sort.Slice(x, less) in the given functions: `less` indexes the very slice being sorted with its
+// parameters, compares the same field of both elements, with < on an ordered basic type.
+func runComparators(c *Ctx, fns []*ssa.Function, wantKey map[string]string) {
+	p := c.P
+	for _, fn := range fns {
+		for _, b := range fn.Blocks {
+			for _, in := range b.Instrs {
+				call, ok := in.(*ssa.Call)
+				if !ok {
+					continue
+				}
+				name := calleeName(call)
+				if name != "sort.Slice" && name != "sort.SliceStable" {
+					continue
+				}
+				fname := shortName(fn)
+				target := sortTarget(call)
+				construct := "sort of " + descr(target)
+				mc, ok := call.Call.Args[1].(*ssa.MakeClosure)
+				if !ok {
+					c.Undecided("CMP", fname, construct, p.ipos(call), "comparator is not a function literal")
+					continue
+				}
+				less := mc.Fn.(*ssa.Function)
+				tc := canon(target)
+				var probs []string
+				// every IndexAddr by a parameter must be on the sorted slice
+				for _, lb := range less.Blocks {
+					for _, lin := range lb.Instrs {
+						ia, ok := lin.(*ssa.IndexAddr)
+						if !ok {
+							continue
+						}
+						if _, byParam := ia.Index.(*ssa.Parameter); !byParam {
+							continue
+						}
+						sc := canon(ia.X)
+						for i, fv := range less.FreeVars {
+							sc = strings.ReplaceAll(sc, fv.Name(), canon(mc.Bindings[i]))
+						}
+						if sc != tc {
+							probs = append(probs, fmt.Sprintf("the comparator indexes %s with i/j while %s is being sorted: after the first swap the two no longer correspond", descr(ia.X), descr(target)))
+						}
+					}
+				}
+				// result: F(x[i]) < F(x[j])
+				field := ""
+				if len(less.Blocks) == 1 {
+					if ret, ok := less.Blocks[0].Instrs[len(less.Blocks[0].Instrs)-1].(*ssa.Return); ok {
+						switch rv := ret.Results[0].(type) {
+						case *ssa.BinOp:
+							a := strings.ReplaceAll(canon(rv.X), "["+less.Params[0].Name()+"]", "[#]")
+							bb := strings.ReplaceAll(canon(rv.Y), "["+less.Params[1].Name()+"]", "[#]")
+							if rv.Op != token.LSS || a != bb || !strings.Contains(a, "[#]") {
+								probs = append(probs, "comparator is not `key(x[i]) < key(x[j])` on one key")
+							}
+							if i := strings.LastIndex(a, "."); i >= 0 {
+								field = strings.TrimSuffix(a[i+1:], ")")
+							}
+						case *ssa.Call:
+							field = "method " + rv.Call.Value.Name()
+						default:
+							probs = append(probs, "comparator shape not recognised")
+						}
+					}
+				} else {
+					probs = append(probs, "multi-block comparator not recognised")
+				}
+				if want, ok := wantKey[fname]; ok && field != "" && !strings.Contains(want, field) {
+					probs = append(probs, "sorted by "+field+", expected "+want)
+				}
+				c.Check(len(probs) == 0, "CMP", fname, construct, p.ipos(call), "comparator indexes the sorted slice itself and compares one key ("+field+") with <", strings.Join(dedup(probs), "; "))
+			}
+		}
+	}
+}
+
+// ---------------------------------------------------------------- per-group sorts and file order (C08)
+
+func runStaticOrder(c *Ctx) {
+	p := c.P
+	fns := staticParseFns(c)
+	// S1: stop times of every trip are sorted by StopSequence after the row loop
+	if fn := c.anchor("gtfs:parseScheduledStopTimes"); fn != nil {
+		fname := shortName(fn)
+		var rowLoop *Loop
+		loops := naturalLoops(fn)
+		for _, l := range loops {
+			if iff, ok := l.Header.Instrs[len(l.Header.Instrs)-1].(*ssa.If); ok {
+				if call, ok := iff.Cond.(*ssa.Call); ok && calleeName(call) == "(*"+modPath+"/csv.File).NextRow" {
+					rowLoop = l
+				}
+			}
+		}
+		var sortCall *ssa.Call
+		var sortLoop *Loop
+		for _, l := range loops {
+			if l == rowLoop {
+				continue
+			}
+			for b := range l.Blocks {
+				for _, in := range b.Instrs {
+					if call, ok := in.(*ssa.Call); ok && calleeName(call) == "sort.Slice" && strings.HasSuffix(canon(sortTarget(call)), ".StopTimes)") {
+						sortCall, sortLoop = call, l
+					}
+				}
+			}
+		}
+		ok := rowLoop != nil && sortCall != nil && !rowLoop.Blocks[sortCall.Block()] && rowLoop.Header.Dominates(sortCall.Block())
+		why := "no sort of each trip's StopTimes after the row loop"
+		if ok {
+			// the sort runs on every trip around the sorting loop, and that loop visits every trip
+			uncond := true
+			pathsWithin(sortLoop.Header, sortLoop, func(path []*ssa.BasicBlock, back bool) {
+				if !back {
+					return
+				}
+				has := false
+				for _, b := range path {
+					if b == sortCall.Block() {
+						has = true
+					}
+				}
+				if !has {
+					uncond = false
+				}
+			})
+			if !uncond {
+				ok, why = false, "the sort is skipped for some trips (it is conditional inside the loop over the trips)"
+			}
+			// the loop ranges over a map filled from every element of the trips parameter, or over trips itself
+			all := false
+			for _, in := range sortLoop.Header.Instrs {
+				if nx, isNext := in.(*ssa.Next); isNext {
+					if rng, isR := nx.Iter.(*ssa.Range); isR {
+						// every MapUpdate into this map happens in a full range over the trips parameter
+						n := 0
+						full := true
+						for _, b := range fn.Blocks {
+							for _, in2 := range b.Instrs {
+								if mu, isMU := in2.(*ssa.MapUpdate); isMU && mu.Map == rng.X {
+									n++
+									if ia, isIA := mu.Value.(*ssa.IndexAddr); !isIA {
+										full = false
+									} else if r, _ := isRangeIndexOver(ia.Index, ia.X); !r {
+										full = false
+									} else if _, isParam := ia.X.(*ssa.Parameter); !isParam {
+										full = false
+									}
+								}
+							}
+						}
+						all = n > 0 && full
+					}
+				}
+			}
+			if !all {
+				ok, why = false, "the sorting loop does not visit every trip (it must range over the id map filled from all trips)"
+			}
+		}
+		pos := p.pos(fn.Pos())
+		if sortCall != nil {
+			pos = p.ipos(sortCall)
+		}
+		c.Check(ok, "ORDER", fname, "every trip's stop times sorted after all rows are read", pos, "unconditional sort.Slice of trip.StopTimes for every trip, after the row loop", why)
+	}
+	// S2: shapes: each group sorted before its points are built; points built by a range over the sorted rows
+	if fn := c.anchor("gtfs:parseShapes"); fn != nil {
+		fname := shortName(fn)
+		var rowsSort *ssa.Call
+		for _, b := range fn.Blocks {
+			for _, in := range b.Instrs {
+				if call, ok := in.(*ssa.Call); ok && calleeName(call) == "sort.Slice" {
+					if strings.Contains(sortTarget(call).Type().String(), "ShapeRow") {
+						rowsSort = call
+					}
+				}
+			}
+		}
+		ok := rowsSort != nil
+		why := "the rows of a shape are not sorted"
+		if ok {
+			// every append to a []ShapePoint happens in a loop dominated by the sort, ranging over the sorted slice
+			for _, b := range fn.Blocks {
+				for _, in := range b.Instrs {
+					call, isCall := in.(*ssa.Call)
+					if !isCall || !isBuiltin(call, "append") || !strings.Contains(call.Type().String(), "ShapePoint") {
+						continue
+					}
+					if !rowsSort.Block().Dominates(b) {
+						ok, why = false, "points are built before the rows are sorted"
+					}
+				}
+			}
+		}
+		c.Check(ok, "ORDER", fname, "shape points built from the rows sorted by sequence", p.pos(fn.Pos()), "sort.Slice(rows) dominates the loop that builds the points", why)
+	}
+	// comparators
+	var cmpFns []*ssa.Function
+	for _, f := range fns {
+		cmpFns = append(cmpFns, f)
+	}
+	runComparators(c, cmpFns, map[string]string{"gtfs.parseScheduledStopTimes": "StopSequence", "gtfs.parseShapes": "ShapePtSequence ID"})
+	// S3: file-order collections: only tail appends, never sorted
+	fileOrder := map[string]bool{"gtfs.Agency": true, "gtfs.Route": true, "gtfs.Stop": true, "gtfs.Transfer": true, "gtfs.ScheduledTrip": true, "gtfs.Frequency": true, "time.Time": true}
+	for _, fn := range fns {
+		for _, b := range fn.Blocks {
+			for _, in := range b.Instrs {
+				call, ok := in.(*ssa.Call)
+				if !ok {
+					continue
+				}
+				if isSortCall(calleeName(call)) {
+					t := sortTarget(call).Type()
+					if sl, ok := t.Underlying().(*types.Slice); ok && fileOrder[typeName(sl.Elem())] {
+						c.Violated("ORDER", shortName(fn), "sort of a file-order collection", p.ipos(call), "a collection that must keep the row order of its file ("+typeName(sl.Elem())+") is sorted")
+					}
+					continue
+				}
+				if !isBuiltin(call, "append") {
+					continue
+				}
+				sl, ok := call.Type().Underlying().(*types.Slice)
+				if !ok || !fileOrder[typeName(sl.Elem())] {
+					continue
+				}
+				// tail append: first argument is the accumulating slice (a phi of the same chain, a load of the same cell/field)
+				okTail := false
+				switch a0 := call.Call.Args[0].(type) {
+				case *ssa.Phi, *ssa.Const:
+					okTail = true
+				case *ssa.UnOp:
+					// x.F = append(x.F, ...): the result is stored back to the same cell
+					for _, r := range *call.Referrers() {
+						if st, ok := r.(*ssa.Store); ok && canon(st.Addr) == canon(a0.X) {
+							okTail = true
+						}
+					}
+				case *ssa.Lookup, *ssa.Call:
+					okTail = true
+				}
+				// appended part is a single new element (variadic array of length 1)
+				if s2, ok := call.Call.Args[1].(*ssa.Slice); ok {
+					if n, ok := (&boundsProver{}).constLen(s2); !ok || n != 1 {
+						okTail = false
+					}
+				}
+				c.Check(okTail, "ORDER", shortName(fn), "tail append to "+typeName(sl.Elem())+" collection", p.ipos(call), "row order of the file is kept: one element appended at the end", "a file-order collection is built by something other than appending one element at the end")
+			}
+		}
+	}
+	runPreallocGuard(c)
+	runCacheCoherence(c)
+}
+
+// runCacheCoherence: a loop-carried cached lookup (pointer p = m[k]) and its loop-carried key (kk) change together:
+// on every trip around the loop either both are unchanged, or p = m[k] and kk = k for the same k.
+func runCacheCoherence(c *Ctx) {
+	p := c.P
+	for _, fn := range staticParseFns(c) {
+		for _, l := range naturalLoops(fn) {
+			var phis []*ssa.Phi
+			for _, in := range l.Header.Instrs {
+				if phi, ok := in.(*ssa.Phi); ok {
+					phis = append(phis, phi)
+				}
+			}
+			// cached pointer phis: some in-loop value is a lookup
+			for _, pp := range phis {
+				var keyOf ssa.Value
+				walkPhiValues(pp, l, func(v ssa.Value) {
+					if lk := lookupOf(v); lk != nil {
+						keyOf = lk.Index
+					}
+				})
+				if keyOf == nil {
+					continue
+				}
+				// the key phi: a header phi that receives that key value
+				var kp *ssa.Phi
+				for _, q := range phis {
+					if q == pp {
+						continue
+					}
+					walkPhiValues(q, l, func(v ssa.Value) {
+						if v == keyOf {
+							kp = q
+						}
+					})
+				}
+				fname := shortName(fn)
+				construct := "cache (" + pp.Comment + ", " + func() string {
+					if kp != nil {
+						return kp.Comment
+					}
+					return "?"
+				}() + ")"
+				if kp == nil {
+					c.Violated("CACHE", fname, construct, p.ipos(pp), "a looked-up pointer is cached across rows without remembering the key it was looked up under")
+					continue
+				}
+				ok := true
+				why := ""
+				n := pathsWithin(l.Header, l, func(path []*ssa.BasicBlock, back bool) {
+					if !back {
+						return
+					}
+					pe := pathEnv{pred: map[*ssa.BasicBlock]*ssa.BasicBlock{}}
+					for i := 1; i < len(path); i++ {
+						pe.pred[path[i]] = path[i-1]
+					}
+					last := path[len(path)-1]
+					idx := -1
+					for i, pr := range l.Header.Preds {
+						if pr == last {
+							idx = i
+						}
+					}
+					if idx < 0 {
+						return
+					}
+					pv := pe.resolvePhi(pp.Edges[idx])
+					kv := pe.resolvePhi(kp.Edges[idx])
+					switch {
+					case pv == ssa.Value(pp) && kv == ssa.Value(kp):
+					case pv != ssa.Value(pp) && kv != ssa.Value(kp):
+						lk := lookupOf(pv)
+						if lk == nil || lk.Index != kv {
+							ok, why = false, "the cached pointer and the cached key are updated from different keys"
+						}
+					case pv == ssa.Value(pp):
+						ok, why = false, "the cached key ("+kp.Comment+") changes on a path where the cached pointer ("+pp.Comment+") does not: later rows with that key are attributed to the previous object"
+					default:
+						ok, why = false, "the cached pointer ("+pp.Comment+") changes on a path where the cached key ("+kp.Comment+") does not"
+					}
+				})
+				c.Check(ok && n > 0, "CACHE", fname, construct, p.ipos(pp), fmt.Sprintf("on all %d paths through the loop pointer and key are either both kept or both replaced from the same lookup", n), why)
+			}
+		}
+	}
+}
+
+func walkPhiValues(phi *ssa.Phi, l *Loop, f func(v ssa.Value)) {
+	seen := map[ssa.Value]bool{}
+	var rec func(v ssa.Value, d int)
+	rec = func(v ssa.Value, d int) {
+		if seen[v] || d > 10 {
+			return
+		}
+		seen[v] = true
+		f(v)
+		if q, ok := v.(*ssa.Phi); ok && l.Blocks[q.Block()] {
+			for _, e := range q.Edges {
+				rec(e, d+1)
+			}
+		}
+	}
+	for i, e := range phi.Edges {
+		if l.Blocks[phi.Block().Preds[i]] {
+			rec(e, 0)
+		}
+	}
+}
+
+// ---------------------------------------------------------------- G12: rejected rows are inert (C09)
+
+// runRejectInert: in every NextRow loop the accept path is the one that ends in the lexically last block of the
+// body; every other path back to the loop head (a `continue`) is a reject path and must have no persistent effect:
+// no store to memory that outlives the iteration, no update of an outer map, no change of a loop-carried variable.
+// Accumulating warnings, logging and the csv layer's per-row state are exempt.
+func runRejectInert(c *Ctx) {
+	p := c.P
+	e, _ := c05Engine(c)
+	for _, fn := range staticParseFns(c) {
+		for _, l := range naturalLoops(fn) {
+			iff, ok := l.Header.Instrs[len(l.Header.Instrs)-1].(*ssa.If)
+			if !ok {
+				continue
+			}
+			call, ok := iff.Cond.(*ssa.Call)
+			if !ok || calleeName(call) != "(*"+modPath+"/csv.File).NextRow" {
+				continue
+			}
+			fname := shortName(fn)
+			// the accept block: the back-edge predecessor that comes last in the source
+			var accept *ssa.BasicBlock
+			var acceptPos token.Pos
+			for _, pr := range l.Header.Preds {
+				if !l.Blocks[pr] {
+					continue
+				}
+				pos := lastPos(pr)
+				if accept == nil || pos > acceptPos {
+					accept, acceptPos = pr, pos
+				}
+			}
+			localAlloc := map[ssa.Value]bool{}
+			for b := range l.Blocks {
+				for _, in := range b.Instrs {
+					if a, ok := in.(*ssa.Alloc); ok {
+						localAlloc[a] = true
+					}
+				}
+			}
+			var phis []*ssa.Phi
+			for _, in := range l.Header.Instrs {
+				if phi, ok := in.(*ssa.Phi); ok {
+					phis = append(phis, phi)
+				}
+			}
+			cachePhis := map[*ssa.Phi]bool{}
+			for _, pp := range phis {
+				var keyOf ssa.Value
+				walkPhiValues(pp, l, func(v ssa.Value) {
+					if lk := lookupOf(v); lk != nil {
+						keyOf = lk.Index
+					}
+				})
+				if keyOf == nil {
+					continue
+				}
+				for _, q := range phis {
+					walkPhiValues(q, l, func(v ssa.Value) {
+						if v == keyOf && q != pp {
+							cachePhis[pp], cachePhis[q] = true, true
+						}
+					})
+				}
+			}
+			var problems []string
+			nReject := 0
+			pathsWithin(l.Header.Succs[0], l, func(path []*ssa.BasicBlock, back bool) {
+				if !back || path[len(path)-1] == accept {
+					return
+				}
+				nReject++
+				for _, b := range path {
+					for _, in := range b.Instrs {
+						switch x := in.(type) {
+						case *ssa.Store:
+							root := addrRoot(x.Addr)
+							if localAlloc[root] {
+								continue
+							}
+							if ld, ok := root.(*ssa.UnOp); ok {
+								_ = ld
+							}
+							problems = append(problems, fmt.Sprintf("%s: %s is written although the row is then rejected", p.ipos(x), describeAddr(x.Addr)))
+						case *ssa.MapUpdate:
+							if localAlloc[x.Map] {
+								continue
+							}
+							problems = append(problems, fmt.Sprintf("%s: map %s is updated although the row is then rejected", p.ipos(x), describeMapExpr(x.Map)))
+						case *ssa.Call:
+							if _, isB := x.Call.Value.(*ssa.Builtin); isB {
+								continue
+							}
+							name := calleeName(x)
+							if strings.Contains(name, "/csv.") || strings.HasPrefix(name, "log.") || strings.HasPrefix(name, "fmt.") || strings.Contains(name, "/warnings.") {
+								continue
+							}
+							for _, cal := range p.Callees(x) {
+								if !p.fnIndex[cal] {
+									continue
+								}
+								for k := range e.mods[cal] {
+									if k != "local" && !strings.HasPrefix(k, "csv.") {
+										problems = append(problems, fmt.Sprintf("%s: call of %s (writes %s) on a path that rejects the row", p.ipos(x), shortName(cal), k))
+										break
+									}
+								}
+							}
+						}
+					}
+				}
+				// loop-carried variables must be unchanged on a reject path
+				pe := pathEnv{pred: map[*ssa.BasicBlock]*ssa.BasicBlock{}}
+				pe.pred[path[0]] = l.Header
+				for i := 1; i < len(path); i++ {
+					pe.pred[path[i]] = path[i-1]
+				}
+				last := path[len(path)-1]
+				for i, pr := range l.Header.Preds {
+					if pr != last {
+						continue
+					}
+					for _, phi := range phis {
+						v := pe.resolvePhi(phi.Edges[i])
+						if v == ssa.Value(phi) {
+							continue
+						}
+						// warnings are allowed to accumulate
+						if sl, ok := phi.Type().Underlying().(*types.Slice); ok && strings.Contains(sl.Elem().String(), "warnings.") {
+							continue
+						}
+						// a lookup cache (pointer + key) may be refreshed by a rejected row: its coherence is the CACHE rule's subject
+						if cachePhis[phi] {
+							continue
+						}
+						problems = append(problems, fmt.Sprintf("%s: variable %q changes on a path that rejects the row (ending at %s)", p.ipos(phi), phi.Comment, p.pos(lastPos(last))))
+					}
+				}
+			})
+			c.Check(len(problems) == 0, "REJECT", fname, "rejected rows leave no trace", p.pos(fn.Pos()), fmt.Sprintf("none of the %d reject paths through the row loop has a persistent effect", nReject), strings.Join(dedup(problems), "; "))
+		}
+	}
+}
+
+func lastPos(b *ssa.BasicBlock) token.Pos {
+	var pos token.Pos
+	for _, in := range b.Instrs {
+		if in.Pos() > pos {
+			pos = in.Pos()
+		}
+		for _, op := range in.Operands(nil) {
+			if *op != nil && (*op).Pos() > pos && (*op).Parent() == b.Parent() {
+				if oi, ok := (*op).(ssa.Instruction); ok && oi.Block() == b {
+					pos = (*op).Pos()
+				}
+			}
+		}
+	}
+	return pos
+}
+
+// ---------------------------------------------------------------- G9 + A9: warnings describe the row
+
+func runWarningRules(c *Ctx) {
+	p := c.P
+	// G9: the record returned by (*csv.Reader).Read on the row path is the reader's reused buffer: it may be kept in
+	// row.cells only; anything handed out of package csv or stored elsewhere must be a copy.
+	csvPkg := pkgPathOf("csv")
+	tainted := map[ssa.Value]bool{}
+	cellsTainted := false
+	var csvFns []*ssa.Function
+	for _, fn := range p.ModFns {
+		if fnPkgPath(fn) == csvPkg {
+			csvFns = append(csvFns, fn)
+		}
+	}
+	reuse := false
+	for _, fn := range csvFns {
+		for _, b := range fn.Blocks {
+			for _, in := range b.Instrs {
+				if st, ok := in.(*ssa.Store); ok {
+					if fa, ok := st.Addr.(*ssa.FieldAddr); ok && fieldName(fa.X.Type(), fa.Field) == "ReuseRecord" {
+						if bv, ok := constBool(st.Val); ok && bv {
+							reuse = true
+						}
+					}
+				}
+			}
+		}
+	}
+	for iter := 0; iter < 10; iter++ {
+		changed := false
+		mark := func(v ssa.Value) {
+			if !tainted[v] {
+				tainted[v] = true
+				changed = true
+			}
+		}
+		for _, fn := range csvFns {
+			for _, b := range fn.Blocks {
+				for _, in := range b.Instrs {
+					switch x := in.(type) {
+					case *ssa.Extract:
+						if call, ok := x.Tuple.(*ssa.Call); ok && x.Index == 0 && calleeName(call) == "(*encoding/csv.Reader).Read" {
+							// the header read happens before ReuseRecord is set: only reads in NextRow-like code (after) are reused.
+							// Conservatively: every Read whose result is stored into row.cells, i.e. all reads outside csv.New's first one
+							if fn.Name() != "New" {
+								mark(x)
+							}
+						}
+					case *ssa.Store:
+						if tainted[x.Val] {
+							if fa, ok := x.Addr.(*ssa.FieldAddr); ok && typeName(fa.X.Type()) == "csv.row" && fieldName(fa.X.Type(), fa.Field) == "cells" {
+								if !cellsTainted {
+									cellsTainted = true
+									changed = true
+								}
+							}
+						}
+					case *ssa.UnOp:
+						if fa, ok := x.X.(*ssa.FieldAddr); ok && x.Op == token.MUL && cellsTainted && typeName(fa.X.Type()) == "csv.row" && fieldName(fa.X.Type(), fa.Field) == "cells" {
+							mark(x)
+						}
+					case *ssa.Phi:
+						for _, ed := range x.Edges {
+							if tainted[ed] {
+								mark(x)
+							}
+						}
+					case *ssa.Slice:
+						if tainted[x.X] {
+							mark(x)
+						}
+					case *ssa.Call:
+						// append([]T(nil), x...) and copy into a fresh slice produce fresh slices: taint stops.
+						if isBuiltin(x, "append") && tainted[x.Call.Args[0]] {
+							mark(x)
+						}
+					}
+				}
+			}
+		}
+		if !changed {
+			break
+		}
+	}
+	if !reuse {
+		c.Proved("G9", "csv", "record buffer", "-", "ReuseRecord is not enabled: records are fresh slices")
+	} else {
+		var probs []string
+		for _, fn := range csvFns {
+			for _, b := range fn.Blocks {
+				for _, in := range b.Instrs {
+					switch x := in.(type) {
+					case *ssa.Return:
+						for _, r := range x.Results {
+							if tainted[r] && fn.Object() != nil && fn.Object().Exported() {
+								probs = append(probs, fmt.Sprintf("%s returns the reader's reused record (%s): whoever keeps it sees the next row's cells", shortName(fn), p.ipos(x)))
+							}
+						}
+					case *ssa.Store:
+						if tainted[x.Val] {
+							if fa, ok := x.Addr.(*ssa.FieldAddr); ok && typeName(fa.X.Type()) == "csv.row" && fieldName(fa.X.Type(), fa.Field) == "cells" {
+								continue
+							}
+							if _, isAlloc := x.Addr.(*ssa.Alloc); isAlloc {
+								continue
+							}
+							probs = append(probs, fmt.Sprintf("%s stores the reused record into %s", shortName(fn), describeAddr(x.Addr)))
+						}
+					}
+				}
+			}
+		}
+		c.Check(len(probs) == 0, "G9", "csv", "the reused record never escapes uncopied", "-", "the slice returned by Read under ReuseRecord is kept only in row.cells; what leaves the package is a copy", strings.Join(dedup(probs), "; "))
+	}
+	// A9: NewStaticWarning's fields
+	if f := c.anchor("warnings:NewStaticWarning"); f != nil {
+		b := newBinder(c)
+		want := map[string]string{"File": "Name(", "RowNumber": "RowNumber(", "RowContent": "RowContent(", "HeaderContent": "HeaderContent(", "Kind": "param:kind"}
+		got := map[string]string{}
+		for _, fs := range collectFieldStores([]*ssa.Function{f}, "warnings.StaticWarning") {
+			got[fs.field] = b.bind(fs.store.Val)
+		}
+		for _, field := range []string{"File", "HeaderContent", "Kind", "RowContent", "RowNumber"} {
+			ok := strings.HasPrefix(got[field], want[field]) && (field == "Kind" || strings.Contains(got[field], "param:csvFile"))
+			c.Check(ok, "A9", shortName(f), "warning."+field, p.pos(f.Pos()), field+" <- "+clip(got[field], 60), fmt.Sprintf("StaticWarning.%s is filled from %q, expected %s of the file being parsed", field, clip(got[field], 80), want[field]))
+		}
+	}
+	// row numbering: rowNumber += 1 exactly once, on the success path of NextRow, nowhere else; RowNumber() returns it
+	var writes []string
+	okInc := false
+	nextRow := c.anchor("csv:(*File).NextRow")
+	for _, fn := range csvFns {
+		for _, b := range fn.Blocks {
+			for _, in := range b.Instrs {
+				st, ok := in.(*ssa.Store)
+				if !ok {
+					continue
+				}
+				fa, ok := st.Addr.(*ssa.FieldAddr)
+				if !ok || typeName(fa.X.Type()) != "csv.File" || fieldName(fa.X.Type(), fa.Field) != "rowNumber" {
+					continue
+				}
+				writes = append(writes, shortName(fn))
+				if fn == nextRow {
+					if bo, ok := st.Val.(*ssa.BinOp); ok && bo.Op == token.ADD && canon(bo.X) == "*("+canon(fa)+")" {
+						if k, ok := constInt(bo.Y); ok && k == 1 {
+							// dominates the `return true` and is not reachable from an error return
+							for _, rb := range fn.Blocks {
+								if ret, ok := rb.Instrs[len(rb.Instrs)-1].(*ssa.Return); ok {
+									if bv, _ := constBool(ret.Results[0]); bv && dominatesInstr(st, ret) {
+										okInc = true
+									}
+								}
+							}
+						}
+					}
+				}
+			}
+		}
+	}
+	c.Check(okInc && len(writes) == 1, "A9", "(*csv.File).NextRow", "row number counts accepted records from 1", "-", "rowNumber is incremented by exactly one, only on the path that hands out a row", fmt.Sprintf("rowNumber is written %d time(s) (%v) or not as rowNumber+1 on the success path: warnings no longer carry the 1-based record number", len(writes), writes))
+	for _, g := range []struct{ spec, field string }{{"csv:(*File).RowNumber", "rowNumber"}, {"csv:(*File).Name", "name"}, {"csv:(*File).HeaderContent", "headerContent"}} {
+		f := c.anchor(g.spec)
+		if f == nil {
+			continue
+		}
+		fi, ok := getterLikeField(f)
+		c.Check(ok && fi == g.field, "A9", shortName(f), "accessor returns "+g.field, p.pos(f.Pos()), "returns f."+g.field, "accessor does not return File."+g.field)
+	}
+}
+
+func getterLikeField(f *ssa.Function) (string, bool) {
+	if len(f.Blocks) != 1 {
+		return "", false
+	}
+	ret, ok := f.Blocks[0].Instrs[len(f.Blocks[0].Instrs)-1].(*ssa.Return)
+	if !ok || len(ret.Results) != 1 {
+		return "", false
+	}
+	ld, ok := ret.Results[0].(*ssa.UnOp)
+	if !ok {
+		return "", false
+	}
+	fa, ok := ld.X.(*ssa.FieldAddr)
+	if !ok || fa.X != ssa.Value(f.Params[0]) {
+		return "", false
+	}
+	return fieldName(fa.X.Type(), fa.Field), true
 }
